@@ -40,6 +40,8 @@ pub enum ExtMut {
     LengthPrefixTooLong(u8),
     /// admin vector whose byte length is not a multiple of 32
     AdminVectorRagged,
+    /// a relay that parses although its normalised spelling does not ("wss:a/b://c")
+    RelayNotNormalisable,
     /// the admin list (false) / relay list (true) announces a byte length that ends inside its
     /// last element; all bytes of the elements are there
     ListPrefixEndsInsideElement(bool),
@@ -173,6 +175,10 @@ fn extension_case(v: &ExtValue, muts: &[ExtMut], rep: &mut CaseReport) -> Result
             }
             ExtMut::DescriptionNotUtf8 => {
                 r.description = vec![0xC3, 0x28];
+                r.encode()
+            }
+            ExtMut::RelayNotNormalisable => {
+                r.relays.push(b"wss:a/b://c".to_vec());
                 r.encode()
             }
             ExtMut::BadRelayUrl => {
@@ -607,7 +613,7 @@ pub fn main(args: &Args) -> i32 {
     let spec = Spec {
         id: "C15",
         level: "exploration",
-        rule: "four generated families. (1) group-data extension values (any UTF-8 name/description incl. empty, NUL, multi-byte, long; 0..n admins and relays; all 16 presence patterns of the four image fields; versions 1..65535): library encoding equals an independent encoder of the documented layout, decode(encode(v)) = v, and each single-field mutation (appended bytes, truncation, version 0, non-UTF-8 name/description/relay, invalid relay URL, image field lengths other than 0 or the fixed one, over-long length prefix, ragged admin vector, a list length prefix that ends inside the list's last element) is refused. (2) key-package events over relay lists / protected flag: a second client parses them to the same reference and identity; each listed ambiguity (missing / hex encoding tag, hex content, foreign or missing i tag, foreign author, wrong protocol / ciphersuite / extensions tags, wrong kind, missing relays) is refused. (3) welcome rumors of real create_group calls: the joiner's preview equals the inviter's group data; missing / hex / second disagreeing or value-less encoding tag, hex content, wrong kind, missing relays / e tag, truncation are refused - the structural ones also when offered after the genuine invitation under its wrapper id or with its rumor id. (4) imeta tags over MIME families (spelled canonically, capitalised, with a parameter, with surrounding blanks), file names and sizes: parse(create(u)) equals the reference; wrong-length or non-hex x / n, unknown or missing v, missing x / n are refused. Non-trivial = every case that reached its round trip; distinct = distinct cases".into(),
+        rule: "four generated families. (1) group-data extension values (any UTF-8 name/description incl. empty, NUL, multi-byte, long; 0..n admins and relays; all 16 presence patterns of the four image fields; versions 1..65535): library encoding equals an independent encoder of the documented layout, decode(encode(v)) = v, and each single-field mutation (appended bytes, truncation, version 0, non-UTF-8 name/description/relay, invalid relay URL, a relay URL whose normalised spelling no longer parses, image field lengths other than 0 or the fixed one, over-long length prefix, ragged admin vector, a list length prefix that ends inside the list's last element) is refused. (2) key-package events over relay lists / protected flag: a second client parses them to the same reference and identity; each listed ambiguity (missing / hex encoding tag, hex content, foreign or missing i tag, foreign author, wrong protocol / ciphersuite / extensions tags, wrong kind, missing relays) is refused. (3) welcome rumors of real create_group calls: the joiner's preview equals the inviter's group data; missing / hex / second disagreeing or value-less encoding tag, hex content, wrong kind, missing relays / e tag, truncation are refused - the structural ones also when offered after the genuine invitation under its wrapper id or with its rumor id. (4) imeta tags over MIME families (spelled canonically, capitalised, with a parameter, with surrounding blanks), file names and sizes: parse(create(u)) equals the reference; wrong-length or non-hex x / n, unknown or missing v, missing x / n are refused. Non-trivial = every case that reached its round trip; distinct = distinct cases".into(),
         assumptions: vec![
             "the reference encoder follows TLS presentation language with RFC 9420 variable-length integers (as tls_codec does)".into(),
             "trailing bytes after the TLS structure inside key-package / welcome content are measured by C06's mutants but not judged here: only the extension parser documents a trailing-byte check".into(),
@@ -619,7 +625,7 @@ pub fn main(args: &Args) -> i32 {
     let ext_mut = prop_oneof![
         1 => any::<u8>().prop_map(ExtMut::AppendBytes),
         1 => any::<u8>().prop_map(ExtMut::Truncate),
-        6 => prop::sample::select(vec![ExtMut::VersionZero, ExtMut::NameNotUtf8, ExtMut::DescriptionNotUtf8, ExtMut::BadRelayUrl, ExtMut::RelayNotUtf8, ExtMut::AdminVectorRagged]),
+        6 => prop::sample::select(vec![ExtMut::VersionZero, ExtMut::NameNotUtf8, ExtMut::DescriptionNotUtf8, ExtMut::BadRelayUrl, ExtMut::RelayNotUtf8, ExtMut::AdminVectorRagged, ExtMut::RelayNotNormalisable]),
         1 => (0u8..4, any::<u8>()).prop_map(|(f, n)| ExtMut::ImageFieldLength(f, n)),
         1 => any::<u8>().prop_map(ExtMut::LengthPrefixTooLong),
         2 => any::<bool>().prop_map(ExtMut::ListPrefixEndsInsideElement),
